@@ -58,6 +58,10 @@ func (f *Elt) Call(s *slip.Scope, args slip.List, depth int) (result slip.Object
 		ra := []rune(seq)
 		f.checkIndex(s, index, len(ra), depth)
 		result = slip.Character(ra[index])
+	case *slip.Vector:
+		al := seq.AsList() // only the elements in front of a fill pointer
+		f.checkIndex(s, index, len(al), depth)
+		result = al[index]
 	case slip.VectorLike:
 		f.checkIndex(s, index, seq.Length(), depth)
 		result = seq.Get(index)
@@ -80,6 +84,9 @@ func (f *Elt) Place(s *slip.Scope, args slip.List, value slip.Object) {
 		seq[index] = byte(slip.ToOctet(value).(slip.Octet))
 	case slip.String:
 		slip.ErrorPanic(s, 0, "setf on a string character is not possible")
+	case *slip.Vector:
+		f.checkIndex(s, index, len(seq.AsList()), 0)
+		seq.Set(value, index)
 	case slip.VectorLike:
 		f.checkIndex(s, index, seq.Length(), 0)
 		seq.Set(value, index)
